@@ -55,6 +55,7 @@ STMTS = [
     ("switch", "must_raise", "switch (RtV) { case 1: ReV = RtV; }", [W % "Re"]),
     ("comma_stmt", "must_raise", "ReV = RtV, RxV = RtV;", [W % "Re", W % "Rx"]),
     ("unknown_call_stmt", "must_raise", "frobnicate(RtV);", []),
+    ("unknown_call0_stmt", "must_raise", "frobnicate();", []),
     ("array_decl", "must_raise", "int32_t arr[4];", []),
     ("struct_decl", "must_raise", "struct s x;", []),
     ("pointer_store", "must_raise", "*RtV = 1;", []),
@@ -97,6 +98,7 @@ STMTS = [
 EXPRS = [
     ("comma_expr", "must_raise", "(RtV, RsV)", []),
     ("unknown_call", "must_raise", "frobnicate(RtV)", []),
+    ("unknown_call0", "must_raise", "frobnicate()", []),
     ("array_access", "must_raise", "RtV[1]", []),
     ("member_access", "must_raise", "RtV.f", []),
     ("arrow_access", "must_raise", "RtV->f", []),
